@@ -143,8 +143,8 @@ func (c19) Generate(r *sim.Rand, tier string) *sim.Scenario {
 			if long && r.Bool(0.8) {
 				n = r.Range(120, 300)
 			}
-			if r.Bool(0.0006) {
-				n = r.Range(33000, 70000) // one very long batch
+			if sc.Cfg["enum"] != 1 && r.Bool(0.0006) {
+				n = r.Range(33000, 70000) // one very long batch (never in enumerating runs: every fault position re-executes the history)
 			}
 			st := sim.Step{C: c, Op: "acc", N: n, B: r.Bool(0.3), Out: -1}
 			yp := make([]float64, n)
